@@ -207,6 +207,156 @@ def decided_outcome(summary):
     return ("falloff", None)
 
 
+_MUTATING_METHODS = {"append", "extend", "add", "update", "setdefault", "pop", "popitem", "clear", "insert", "remove", "discard", "appendleft", "extendleft",
+                     "popleft", "sort", "reverse", "__setitem__", "__delitem__"}
+_MUTABLE_CTORS = {"list", "dict", "set", "bytearray", "deque", "defaultdict", "OrderedDict", "Counter"}
+
+
+def reachable_functions(prog, roots):
+    """FunctionInfos reachable from `roots` through calls that resolve inside the package (names, dotted module paths, methods of
+    package classes instantiated in a reachable function)."""
+    import ast
+    from .model import dotted_parts
+    seen, out, work = set(), [], list(roots)
+    while work:
+        f = work.pop()
+        if f.qualname in seen:
+            continue
+        seen.add(f.qualname)
+        out.append(f)
+        for n in ast.walk(f.node):
+            if not isinstance(n, ast.Call):
+                continue
+            parts = dotted_parts(n.func)
+            if not parts:
+                continue
+            r = prog.resolve_chain(f.module.name, parts)
+            if r is not None and r[0] == "func" and r[1].qualname.startswith(prog.pkgname + "."):
+                work.append(r[1])
+            elif r is not None and r[0] == "class":
+                work.extend(m for m in r[1].classes.get(r[2], {}).values())
+    return out
+
+
+def hidden_state(prog, roots, allow=()):
+    """Writes to module-level state by the functions reachable from `roots` -- the result of a pure function must not depend on
+    the history of earlier calls: (a) assignment to a `global` name, (b) in-place mutation of a module-level container,
+    (c) a memoised (lru_cache / cache) function that reads a global some function of the package re-assigns.
+    Returns [(function, node, description)]; names in `allow` are exempt."""
+    import ast
+    from .model import dotted_parts
+    reach = reachable_functions(prog, roots)
+    # globals that are re-assigned somewhere in the package
+    reassigned = {}
+    for m in prog.modules.values():
+        for fn in ast.walk(m.tree):
+            if isinstance(fn, (ast.FunctionDef, ast.AsyncFunctionDef)):
+                g = {nm for st in ast.walk(fn) if isinstance(st, ast.Global) for nm in st.names}
+                for st in ast.walk(fn):
+                    if isinstance(st, (ast.Assign, ast.AugAssign, ast.AnnAssign)):
+                        tg = st.targets if isinstance(st, ast.Assign) else [st.target]
+                        for t in tg:
+                            if isinstance(t, ast.Name) and t.id in g:
+                                reassigned.setdefault((m.name, t.id), fn.name)
+
+    def module_container(modname, name):
+        m = prog.modules.get(modname)
+        if m is None:
+            return False
+        for nm, vnode, st in m.assign_nodes:
+            if nm == name:
+                if isinstance(vnode, (ast.List, ast.Dict, ast.Set, ast.ListComp, ast.DictComp, ast.SetComp)):
+                    return True
+                if isinstance(vnode, ast.Call) and (dotted_parts(vnode.func) or [""])[-1] in _MUTABLE_CTORS:
+                    return True
+        return False
+
+    out = []
+    for f in reach:
+        fn = f.node
+        local = {a.arg for a in fn.args.args + fn.args.kwonlyargs + fn.args.posonlyargs}
+        if fn.args.vararg:
+            local.add(fn.args.vararg.arg)
+        if fn.args.kwarg:
+            local.add(fn.args.kwarg.arg)
+        gl = {nm for st in ast.walk(fn) if isinstance(st, ast.Global) for nm in st.names}
+        for st in ast.walk(fn):
+            if isinstance(st, (ast.Assign, ast.AnnAssign, ast.For, ast.With)):
+                tg = st.targets if isinstance(st, ast.Assign) else [st.target] if isinstance(st, (ast.AnnAssign, ast.For)) else [i.optional_vars for i in st.items if i.optional_vars is not None]
+                for t in tg:
+                    for x in ast.walk(t):
+                        if isinstance(x, ast.Name) and isinstance(x.ctx, ast.Store) and x.id not in gl:
+                            local.add(x.id)
+        modname = f.module.name
+        params = {a.arg for a in fn.args.args + fn.args.kwonlyargs + fn.args.posonlyargs} - {"self", "cls"}
+        # which parameters a local name depends on (flow-insensitive def-use closure)
+        dep = {p_: {p_} for p_ in params}
+        changed = True
+        while changed:
+            changed = False
+            for st in ast.walk(fn):
+                if isinstance(st, (ast.Assign, ast.AnnAssign, ast.AugAssign)) and getattr(st, "value", None) is not None:
+                    src = set()
+                    for x in ast.walk(st.value):
+                        if isinstance(x, ast.Name):
+                            src |= dep.get(x.id, set())
+                    tg = st.targets if isinstance(st, ast.Assign) else [st.target]
+                    for t in tg:
+                        for x in ast.walk(t):
+                            if isinstance(x, ast.Name) and isinstance(x.ctx, ast.Store):
+                                if not src <= dep.get(x.id, set()):
+                                    dep[x.id] = dep.get(x.id, set()) | src
+                                    changed = True
+
+        def deps(e):
+            out_ = set()
+            for x in ast.walk(e):
+                if isinstance(x, ast.Name):
+                    out_ |= dep.get(x.id, set())
+            return out_
+
+        for st in ast.walk(fn):
+            if isinstance(st, (ast.Assign, ast.AugAssign, ast.AnnAssign)):
+                tg = st.targets if isinstance(st, ast.Assign) else [st.target]
+                for t in tg:
+                    if isinstance(t, ast.Name) and t.id in gl and t.id not in allow:
+                        # lazy initialisation of a constant (the value depends on no argument) is not state
+                        if isinstance(st, ast.AugAssign) or getattr(st, "value", None) is None or deps(st.value):
+                            out.append((f, st, "assigns the module-level name %s a value that depends on its arguments / on earlier calls" % t.id))
+                    if isinstance(t, ast.Subscript) and isinstance(t.value, ast.Name) and t.value.id not in local and t.value.id not in allow and module_container(modname, t.value.id):
+                        # a memo table is fine when the key determines the value: every argument the value depends on is in the key
+                        if isinstance(st, ast.AugAssign) or getattr(st, "value", None) is None or not deps(st.value) <= deps(t.slice):
+                            out.append((f, st, "stores into the module-level container %s a value that depends on arguments (%s) missing from the key" % (
+                                t.value.id, ", ".join(sorted(deps(st.value) - deps(t.slice))) if getattr(st, "value", None) is not None else "?")))
+            if isinstance(st, ast.Call) and isinstance(st.func, ast.Attribute) and st.func.attr in _MUTATING_METHODS and isinstance(st.func.value, ast.Name):
+                nm = st.func.value.id
+                if nm not in local and nm not in allow and module_container(modname, nm):
+                    memo_ok = False
+                    if st.func.attr == "add" and len(st.args) == 1:
+                        memo_ok = params <= deps(st.args[0])  # "seen and found good" is only sound when the key holds every argument
+                    if st.func.attr == "setdefault" and len(st.args) == 2:
+                        memo_ok = deps(st.args[1]) <= deps(st.args[0])
+                    if not memo_ok:
+                        out.append((f, st, "mutates the module-level container %s (.%s) with something the arguments recorded in it do not determine" % (nm, st.func.attr)))
+            if isinstance(st, ast.Delete):
+                for t in st.targets:
+                    if isinstance(t, ast.Subscript) and isinstance(t.value, ast.Name) and t.value.id not in local and module_container(modname, t.value.id):
+                        out.append((f, st, "deletes from the module-level container %s" % t.value.id))
+        decos = {(".".join(dotted_parts(d.func if isinstance(d, ast.Call) else d) or ["?"])).split(".")[-1] for d in fn.decorator_list}
+        if decos & {"lru_cache", "cache", "cached_property"}:
+            for x in ast.walk(fn):
+                if isinstance(x, ast.Call):
+                    cp = dotted_parts(x.func) or []
+                    cn = ".".join(cp)
+                    if cp and (cp[-1] in ("rpc_method", "recv", "recv_into", "urandom", "token_bytes", "randbelow", "randbits", "listdir", "getsize", "time", "monotonic", "input") or
+                               cn in ("open", "os.stat", "os.path.exists", "os.path.getsize", "socket.socket")):
+                        out.append((f, x, "is memoised but asks the outside world (%s): a later call gets the first answer again" % cn))
+            for x in ast.walk(fn):
+                if isinstance(x, ast.Name) and isinstance(x.ctx, ast.Load) and x.id not in local and (modname, x.id) in reassigned and x.id not in allow:
+                    out.append((f, x, "is memoised but reads the module-level name %s, which %s() re-assigns: the cached result goes stale" % (x.id, reassigned[(modname, x.id)])))
+    return out
+
+
 def raising_handlers(fnode):
     """Except-handler statements of a function that can themselves raise: inside a handler of a total predicate only constant
     returns, pass, and logging calls whose arguments are evaluated without calls (names, constants, attributes, the exception
